@@ -86,8 +86,8 @@ def rawOf (g : LGraph) (n : Node) : String :=
 def unresolved (g : LGraph) : List (Node × Node) :=
   g.edgesOrdered.filter (fun e => e.1.isCol && (cands g e.1).length > 1)
 
-/-- `Column(raw); col.parent = parent` — note `Column.__init__` normalises the (already normalised) name again -/
-def mkSrcCol (raw : String) (p : DS × String) : Column := Column.mk1 (Ident.escapeS raw) (some p)
+/-- `Column._from_raw_name(raw); col.parent = parent` (the already normalised name is kept) -/
+def mkSrcCol (raw : String) (p : DS × String) : Column := Column.mk1 raw (some p)
 
 def schemaOf : DS → Option String
   | .table s _ => some s
